@@ -13,7 +13,7 @@ demo() { g++ -std=c++14 -O1 -g -I$WT/include $D/demo.cpp -o $WT/demo -L$WT/_buil
 build || fin "REJECTED:baseline-build"
 demo; rc0=$?
 [ $rc0 -eq 0 ] || fin "REJECTED:demo-fails-on-original(rc=$rc0)"
-git apply $D/patch.diff || fin "REJECTED:patch-does-not-apply"
+git apply $D/patch.diff 2>/dev/null || git apply $D/patch.rebased.diff || fin "REJECTED:patch-does-not-apply"
 git diff --stat | grep -q tests/ && fin "REJECTED:touches-tests"
 build || fin "REJECTED:mutated-build"
 ctest --test-dir _build -j8 --timeout 900 | tail -3 | grep -q "100% tests passed, 0 tests failed out of 62" || fin "REJECTED:tests-fail-with-patch"
